@@ -309,6 +309,7 @@ func VerifC13Pairs() {
 	// acts on node 0 / wallet 0, the second on either node / wallet (unordered pairs: op1 <= op2)
 	k1, k2 := 1+verifapi.Choose("op1", 5), 1+verifapi.Choose("op2", 5)
 	verifapi.Assume(k1 <= k2)
+	verifReregBare = k2 == 5 && verifapi.Bool("rereg-bare")
 	id1, id2 := ids[0], ids[verifapi.Choose("id2", 2)]
 	a1, a2 := accts[0], accts[verifapi.Choose("acct2", 2)]
 	m1, m2 := verifapi.BigInt("amount1"), verifapi.BigInt("amount2")
@@ -341,6 +342,9 @@ func VerifC13Pairs() {
 	verifapi.Assert(verifapi.Same(got, verifObserve(ab, ids, accts)) || verifapi.Same(got, verifObserve(ba, ids, accts)), "c13.pairs.acknowledged-changes-read-back-as-in-a-serial-order")
 }
 
+// verifReregBare: which record a re-registration (operation 5) writes.
+var verifReregBare bool
+
 func verifC13OpErr(s *badgerStore, k int, ids []store.NodeID, id store.NodeID, a store.Account, amount *big.Int) error {
 	switch k {
 	case 1:
@@ -353,6 +357,10 @@ func verifC13OpErr(s *badgerStore, k int, ids []store.NodeID, id store.NodeID, a
 	case 4:
 		return s.AddAccountNode(a, id)
 	case 5: // the node registers again (a reconnect): a new record for the same id
+		if verifReregBare {
+			// ... as a bare light client: the record clears what the earlier one carried (kind, host flag, uri)
+			return s.SetNode(store.Node{ID: id, LastSeen: verifapi.Now()})
+		}
 		return s.SetNode(store.Node{ID: id, IsHost: true, Kind: "parity", URI: "enode://" + string(id) + "@192.0.2.9:30303", LastSeen: verifapi.Now(), BlockNumber: 9})
 	}
 	return nil
